@@ -53,6 +53,7 @@ TERMS = {
     "poly/deg2_C2": ((1, 2), lambda D: 2, 2, 2 / 3),
     "general": ((1, 2, 3), lambda D: 1, 2, 2 / 3),
     "general/half": ((1, 2), lambda D: 1, 2, 1 / 2),
+    "general/nofix": ((1, 2), lambda D: 1, 2, 2 / 3),
     "conv/single_cons/half": ((1, 2), lambda D: 1, 2, 1 / 2),
     "conv/multi/half": ((2,), lambda D: D, 2, 1 / 2),
     "gradnorm/fix/half": ((1, 2), lambda D: 1, 2, 1 / 2),
@@ -111,7 +112,7 @@ def build_term(ex, jnp, name, D, N, L, scale):
         return nf.PolynomialNonlinearFun(D, N, dealiasing_fraction=0.5 if name == "poly/deg3" else 2 / 3, coefficients=co)
     if name.startswith("general"):
         return nf.GeneralNonlinearFun(D, N, derivative_operator=DO, dealiasing_fraction=0.5 if "half" in name else 2 / 3,
-                                      scale_list=(0.4 * scale, -0.7, 0.5 * scale), zero_mode_fix=True)
+                                      scale_list=(0.4 * scale, -0.7, 0.5 * scale), zero_mode_fix="nofix" not in name)
     if name in ("vort2d", "vort2d/half"):
         return nf.VorticityConvection2d(D, N, convection_scale=scale, derivative_operator=DO, dealiasing_fraction=fr)
     if name == "vort2d/kolmogorov":
@@ -172,7 +173,8 @@ def oracle(name, fg, ch, L, scale):
         b0, b1, b2 = 0.4 * scale, -0.7, 0.5 * scale
         sq = fg.hat(u * u)
         g2 = fg.hat(sum(dx(ch, a) ** 2 for a in range(D)))
-        g2[(Ellipsis,) + (0,) * D] = 0.0
+        if "nofix" not in name:
+            g2[(Ellipsis,) + (0,) * D] = 0.0
         return b0 * sq + b1 * 0.5 * sum(fg.d(sq, a) for a in range(D)) + b2 * 0.5 * g2
     if name.startswith("vort2d"):
         k2 = sum(k * k for k in fg.kap)
